@@ -106,3 +106,10 @@ def _zero_len_c12(case, v):
 def _store_repeated_c05(case, v):
     return (v.get("cls") in ("wrong_value_under_interleaving", "output_chunks_not_covered")
             and bool(v.get("shared_ancestry")) and v.get("n_pairs", 1) > 1)
+
+
+@matcher("derived_before_ancestor_stored")
+def _derived_before_store(case, v):
+    """y = f(x) derived before to_zarr(x)/store(x) of the not-yet-computed x: y later reads x
+    from its old location (runtime fact recorded by the check from the real plan DAGs)."""
+    return v.get("cls") == "value_changed_by_history" and bool(v.get("ancestor_stored_after_derivation"))
